@@ -1,6 +1,7 @@
 import SignaloModel.Model.Value
 import SignaloModel.Model.Registry
 import SignaloModel.Model.Spec
+import SignaloModel.Driver.OtherTypes
 /-!
 Driver, part 1: the filter instances (registry kinds at the sample type `V`).
 Line format: `<op> => <impl result>`; see DESIGN.md Appendix D.
@@ -14,7 +15,7 @@ abbrev KV := List (String × String)
 
 def parseKV (toks : List String) : KV :=
   toks.filterMap (fun t => match t.splitOn "=" with
-    | [k, v] => some (k, v)
+    | k :: v :: rest => some (k, "=".intercalate (v :: rest))
     | _ => none)
 
 def KV.get (kv : KV) (k : String) : Option String := (kv.find? (·.1 == k)).map (·.2)
@@ -68,8 +69,20 @@ structure Inst where
   /-- `inject`ed debounce: the run of predicate-equal samples the injected counter stands for -/
   base : Nat := 0
 
+structure PipeInst where
+  shape : PShape
+  leaves : List (St V)
+  source : Option (Sources.Expr V) := none
+  sink : Option (SinkModels.Sk V) := none
+  /-- inputs fed so far (`f` / `sink`), oldest first -/
+  log : List V := []
+  pulls : Nat := 0
+
 structure DState where
   insts : List (Nat × Inst) := []
+  srcs : List (Nat × SrcInst) := []
+  sinks : List (Nat × SkInst) := []
+  pipes : List (Nat × PipeInst) := []
   lineNo : Nat := 0
   caseNo : Nat := 0
   nOps : Nat := 0
@@ -500,23 +513,5 @@ def stepFilterOp (d : DState) (op : String) (toks impl : List String) : Option (
     let m := renderOut (inst.last.bind (·))
     some (report d op { model := m, impl := implS, clauses := [clauseEq "C15.diff-of-int" e ((inst.last.bind (·)).getD [])] })
   | _ => none
-
-def step (d : DState) (line : String) : DState × List String :=
-  let d := { d with lineNo := d.lineNo + 1 }
-  if line.isEmpty || line.startsWith "#" then (d, []) else
-  let (op, impl) := splitArrow line
-  let toks := (op.splitOn " ").filter (· != "")
-  match toks with
-  | ["case", n] =>
-    let out := closeCase d
-    ({ d with insts := [], caseNo := n.toNat?.getD (d.caseNo + 1), flags := [], caseOps := 0 }, out)
-  | _ =>
-    match stepFilterOp d op toks impl with
-    | some r => r
-    | none => badOp d line
-
-def finish (d : DState) : List String :=
-  closeCase d ++
-  [s!"SUMMARY ops={d.nOps} ok={d.nOk} diff={d.nDiff} spec={d.nSpec} bad={d.nBad} clauses={d.nSpecChecked}"]
 
 end SignaloModel.Driver
